@@ -125,10 +125,12 @@ Fixpoint mandatory_okb (tbl : wtable) (t : tree) : bool :=
                          end) kids
   end.
 
-(* comparison of two walk tables modulo nil checks and a set of ignored fields *)
+(* comparison of the reference walk table (a) with dst's (b) modulo a set of ignored fields: the
+   same fields in the same order, and where the reference walks a child under a nil check (an
+   optional child) dst does too *)
 Definition wpart_same (a b : wpart) : bool :=
   match a, b with
-  | WOne f _, WOne g _ => String.eqb f g
+  | WOne f ga, WOne g gb => String.eqb f g && implb ga gb
   | WMany f, WMany g => String.eqb f g
   | _, _ => false
   end.
@@ -218,6 +220,7 @@ Inductive dpart :=
 (* ===== dstutil.Apply (dstutil/rewrite.go) ============================================== *)
 Inductive apart :=
 | AOne (lit field : string)            (* a.apply(n, "lit", nil, n.field) *)
+| AOneG (lit field : string)           (* if n.field != nil { a.apply(n, "lit", nil, n.field) }: no callback for nil *)
 | AMany (lit : string)                 (* a.applyList(n, "lit") *)
 | APkgFiles                            (* files of a package in sorted name order *)
 | AUnknown (src : string).
